@@ -64,6 +64,7 @@ PROFILES = {
     "rec": dict(key=3, idx=2, slice=1, tuple=1, wc=2, iwc=2, gwc=2, rec=6, par=0, filt=1),
     "filter": dict(key=3, idx=2, slice=1, tuple=1, wc=3, iwc=3, gwc=2, rec=2, par=0, filt=6),
     "parent": dict(key=4, idx=3, slice=1, tuple=1, wc=2, iwc=2, gwc=2, rec=2, par=7, filt=2),
+    "filterpar": dict(key=4, idx=2, slice=1, tuple=1, wc=2, iwc=2, gwc=1, rec=1, par=5, filt=6),
     "all": dict(key=4, idx=3, slice=2, tuple=2, wc=3, iwc=3, gwc=2, rec=2, par=2, filt=3),
     "nopar": dict(key=4, idx=3, slice=2, tuple=2, wc=3, iwc=3, gwc=2, rec=2, par=0, filt=3),
     "keyidx": dict(key=6, idx=5, slice=0, tuple=0, wc=0, iwc=0, gwc=0, rec=0, par=0, filt=0),
@@ -212,6 +213,8 @@ class PathGen:
             return ["x", "Boom"]
         if r < 0.16:
             return ["b", "TypeError"]
+        if r < 0.19:
+            return ["x", "StopIteration"]     # what an exhausted next() inside a predicate raises
         return ["v", rng.choice(OUT_VALUES)]
 
     def gen_fns(self):
@@ -240,8 +243,18 @@ class PathGen:
         cases = [[enc(rng.choice(vals if vals and rng.random() < 0.8 else SCALARS)), ["v", rng.choice([True, 1, "y"])]]
                  for _ in range(rng.randint(1, 2))]
         dflt = ["x", "Boom"] if rng.random() < 0.05 else ["v", rng.choice([False, 0, None, ""])]
-        return ["below", rng.choice([["wc"], ["iwc"], ["gwc"], ["gwc"], ["s", None, None, None]]),
-                ["tab", "data", cases, dflt]]
+        first = rng.choice([["wc"], ["iwc"], ["gwc"], ["gwc"], ["s", None, None, None]])
+        if rng.random() < 0.4:
+            # the table is consulted after the nested search returned: make it depend on *which* node the Match
+            # shows (its name / kind), so that a Match re-pointed by the nested search answers differently
+            sel = rng.choice(["name", "kind", "name"])
+            if sel == "name":
+                names = [c[-2] for c in (_named_descendants(chain) if chain is not None else [])] or KEYS
+                tcases = [[rng.choice(names), ["v", rng.choice([True, 1, "y"])]] for _ in range(rng.randint(1, 2))]
+            else:
+                tcases = [[k, ["v", True]] for k in rng.sample(["dict", "list"], rng.randint(1, 2))]
+            return ["below2", first, ["tab", sel, tcases, ["v", rng.choice([False, 0, None, ""])]]]
+        return [rng.choice(["below", "below", "below2"]), first, ["tab", "data", cases, dflt]]
 
     def gen_pred(self, chain, pdepth, custom=False):
         rng = self.rng
@@ -283,6 +296,23 @@ class PathGen:
             return ["not", self.gen_arg(chain, pdepth, False), self.gen_fns()]
         n = rng.choice([0, 1, 2, 2, 3])
         return [rng.choice(["all", "any"]), [self.gen_arg(chain, pdepth) for _ in range(n)]]
+
+
+def _named_descendants(chain):
+    """(name, value) pairs of every node below the last node of the chain"""
+    out = []
+
+    def rec(v):
+        if isinstance(v, dict):
+            for k, x in v.items():
+                out.append((k, x))
+                rec(x)
+        elif isinstance(v, list):
+            for i, x in enumerate(v):
+                out.append((i, x))
+                rec(x)
+    rec(chain[-1])
+    return out
 
 
 def _all_locs(v, prefix=()):
